@@ -195,6 +195,28 @@ func init() {
 				c18One(o, s, ind, false, "strings")
 			}
 		}
+		// neighbours: every ordered pair of special strings, and of element kinds, adjacent in a list (separators
+		// and delimiters are decided per neighbour in the tight SDL mode)
+		for _, a := range c18Strings {
+			for _, b := range c18Strings {
+				c18One(o, []interface{}{a, b}, -1, true, "neighbours")
+			}
+		}
+		kinds := []func() interface{}{
+			func() interface{} { return "" }, func() interface{} { return "x" }, func() interface{} { return int64(1) },
+			func() interface{} { return int64(-1) }, func() interface{} { return 1.5 }, func() interface{} { return true },
+			func() interface{} { return nil }, func() interface{} { return ggql.Symbol("RED") }, func() interface{} { return ggql.Var("v") },
+			func() interface{} { return []interface{}{} }, func() interface{} { return map[string]interface{}{} },
+			func() interface{} { return []interface{}{""} }, func() interface{} { return map[string]interface{}{"k": ""} },
+		}
+		for _, a := range kinds {
+			for _, b := range kinds {
+				for _, ind := range []int{-1, 0, 2} {
+					c18One(o, []interface{}{a(), b(), a()}, ind, true, "neighbours")
+					c18One(o, map[string]interface{}{"p": a(), "q": b()}, ind, true, "neighbours")
+				}
+			}
+		}
 		if tier == "thorough" {
 			for _, a := range c18Strings {
 				for _, b := range c18Strings {
